@@ -264,6 +264,8 @@ def calls_in(node) -> List[ast.Call]:
 
 def call_name(call: ast.Call) -> str:
     """Last attribute / name of the callee: ``a.b.c(...)`` -> ``c``."""
+    if not isinstance(call, ast.Call):
+        return ''
     f = call.func
     if isinstance(f, ast.Attribute):
         return f.attr
